@@ -126,6 +126,8 @@ enum Pre {
     DanglingLink,
     /// Destination absent, its file name is not valid UTF-8.
     OddName,
+    /// No destination argument: `<source stem>.lc3` in the current directory (absent before).
+    DefaultDest,
 }
 
 impl Pre {
@@ -137,6 +139,7 @@ impl Pre {
             Pre::Symlink => "symlink",
             Pre::DanglingLink => "dangling_symlink",
             Pre::OddName => "non_utf8_name",
+            Pre::DefaultDest => "default_destination",
         }
     }
     fn from_name(s: &str) -> Pre {
@@ -146,6 +149,7 @@ impl Pre {
             "symlink" => Pre::Symlink,
             "dangling_symlink" => Pre::DanglingLink,
             "non_utf8_name" => Pre::OddName,
+            "default_destination" => Pre::DefaultDest,
             _ => Pre::Absent,
         }
     }
@@ -258,19 +262,25 @@ fn compile_once(setup: &Setup, fault: &Fault) -> (Option<(String, String)>, Proc
             std::os::unix::fs::symlink(out_dir.join("not-there-yet.bin"), &dest).expect("dangling symlink");
             None
         }
-        (Pre::Absent, _) | (Pre::OddName, _) => None,
+        (Pre::Absent, _) | (Pre::OddName, _) | (Pre::DefaultDest, _) => None,
     };
-    let mut args: Vec<std::ffi::OsString> = vec!["compile".into(), src.clone().into_os_string(), dest.clone().into_os_string()];
+    let default_dest = setup.pre == Pre::DefaultDest && !device && !matches!(fault, Fault::MissingDir | Fault::DestIsDir);
+    let mut args: Vec<std::ffi::OsString> = vec!["compile".into(), src.clone().into_os_string()];
+    if !default_dest {
+        args.push(dest.clone().into_os_string());
+    }
     if setup.stack {
         args.push("-f".into());
         args.push("stack".into());
     }
     let run = Run {
         args,
-        cwd: &scratch.dir,
+        // Without a destination argument the object file goes to `prog.lc3` in the current
+        // directory, by a relative path: the shim then watches every path (empty prefix)
+        cwd: if default_dest { &out_dir } else { &scratch.dir },
         stdin: b"",
         plan: fault.plan(),
-        watch: Some(&out_dir),
+        watch: if default_dest { Some(std::path::Path::new("")) } else { Some(&out_dir) },
         rlimit_fsize: match fault {
             Fault::Fsize { limit } => Some(*limit),
             _ => None,
@@ -435,6 +445,7 @@ fn build(rng: &mut Rng) -> (Program, bool, Pre, &'static str) {
         8 => Pre::StaleTmp,
         9 => Pre::Symlink,
         10 => Pre::DanglingLink,
+        11 if rng.coin() => Pre::DefaultDest,
         _ => Pre::OddName,
     };
     (program, stack, pre, family)
@@ -555,6 +566,7 @@ impl Check for C08 {
             Pre::Symlink => "probe:destination_is_symlink",
             Pre::DanglingLink => "probe:destination_is_dangling_symlink",
             Pre::OddName => "probe:destination_name_not_utf8",
+            Pre::DefaultDest => "probe:default_destination_in_cwd",
         });
         report.nontrivial = faults.len() >= 2 || matches!(scenario.get("faults"), Some(J::Arr(_)));
         let shape = format!(
